@@ -121,15 +121,18 @@ def delayed_load(all_props, loader, element=True, isotope=False, ion=False):
         In this case, we simply need to clear the delayed load property and
         let the loader set the values as usual.
 
-        If the user tries to override a value in the table before first
-        referencing the table, then the above assumption is false. E.g.,
-        "Ni.K_alpha=5" followed by "print Cu.K_alpha" will yield an
-        undefined Cu.K_alpha. This will be difficult for future users
-        to debug.
+        The attribute may also be assigned before the table is first
+        referenced, either because the user is overriding a value (e.g.,
+        "Ni.K_alpha=5" followed by "print Cu.K_alpha") or because the loader
+        is initializing a private table. The values for the default table
+        are therefore loaded before the new value is assigned.
         """
         def setfn(el, value):
             #print "set", el, propname, value
             clearprops()
+            # Load the values for the default table before assigning the
+            # new value, otherwise they will never be loaded.
+            loader()
             setattr(el, propname, value)
         return setfn
 
